@@ -45,7 +45,7 @@ typedef struct sch_cfg_s {
   int io_points;       /* scheduling point at every journalled VFS call */
   int hook_points;     /* scheduling points at H3 hooks */
   long step_max;       /* max scheduling points per execution */
-  int starve_default;  /* default policy: 0 = current continues (run-to-block) */
+  int starve_default;  /* base scheduler at hand-over points: 0 = lowest id first, 1 = highest id first */
   int allow_spurious;  /* cond-wait may return spuriously as a deviation */
 } sch_cfg_t;
 
@@ -71,6 +71,8 @@ void sch_io_point(const void *obj);      /* called by vfs.c */
 void sch_yield_point(void);              /* select()/sleep */
 const char *sch_describe_block(void);    /* human text for a deadlock */
 void sch_abort_run(int status);          /* abandon the current execution */
+void sch_quiet(int on);                  /* 1: choices not recorded, always default (setup phases) */
+uint64_t sch_event(void);                /* global event stamp (total order of invocations/returns) */
 
 /* ------------------------------------------------------------------ */
 /* in-memory file system (vfs.c)                                      */
